@@ -2,6 +2,10 @@ package main
 
 import (
 	"fmt"
+	"math"
+
+	"github.com/go-spatial/geom"
+	"verif/engine/grid"
 
 	"github.com/pdok/texel/snap"
 	"verif/engine/lat"
@@ -76,6 +80,14 @@ func judgeC01(sc *Scope, rings [][]ref.P, acc *Acc) []Problem {
 				dec, bad := decode(sc.G, z, polys)
 				if bad != "" {
 					acc.Extra["undecodable(C03)"]++
+					// coordinates that are no pixel centres of this id are C03's finding, but edges must not cross
+					// whatever their vertices are: on the synthetic grids every coordinate the tool can produce is a
+					// multiple of 1/16 pixel, so the crossing test is still exact
+					if fine, ok := decodeSixteenths(sc.G, polys); ok {
+						if ea, eb, found := firstCrossing(edgesOf(fine)); found {
+							probs = append(probs, Problem{Sig: "crossing:off-grid-coordinates", What: fmt.Sprintf("id %d: edges %v and %v cross (sixteenths of a deepest pixel; the result also has coordinates that are no pixel centres of this id)", z, ea, eb), IDs: ids, Cfg: cfg, Got: res})
+						}
+					}
 					continue
 				}
 				if ea, eb, found := firstCrossing(edgesOf(dec)); found {
@@ -101,6 +113,28 @@ func judgeC01(sc *Scope, rings [][]ref.P, acc *Acc) []Problem {
 		}
 	}
 	return probs
+}
+
+// decodeSixteenths maps every coordinate of a result on a synthetic grid to sixteenths of a deepest pixel (exact or not ok)
+func decodeSixteenths(g *grid.G, polys []geom.Polygon) ([][][]ref.PX, bool) {
+	if g.Real {
+		return nil, false
+	}
+	out := make([][][]ref.PX, len(polys))
+	for i, pl := range polys {
+		out[i] = make([][]ref.PX, len(pl))
+		for j, r := range pl {
+			out[i][j] = make([]ref.PX, len(r))
+			for k, v := range r {
+				fx, fy := (v[0]-g.Ox)/g.Px*16, (v[1]-g.Oy)/g.Px*16
+				if fx != math.Floor(fx) || fy != math.Floor(fy) || math.Abs(fx) > 1e15 || math.Abs(fy) > 1e15 {
+					return nil, false
+				}
+				out[i][j][k] = ref.PX{int64(fx), int64(fy)}
+			}
+		}
+	}
+	return out, true
 }
 
 func synthGS(deepest int, sub int64, off [2]int64) GridSpec {
@@ -157,6 +191,9 @@ func scopesC01(thorough bool) []Scope {
 		w = lat.Window(3, 2, 2)
 	}
 	scs = append(scs, Scope{Name: "L-half-2-multi", GS: synthGS(2, 2, [2]int64{28, 28}), Spec: lat.Spec{Points: w, MaxK: 5, Valid: true}, IDSets: [][]int{{0, 2}, {0, 1, 2}}, Cfgs: []snap.Config{{}}})
+	// the same at the ORIGIN of the grid, where pixel (x,y) of the coarser id and pixel (x,y) of the finer id (same
+	// Z-order key, different level) both lie inside the window: whatever is keyed by a pixel address alone
+	scs = append(scs, Scope{Name: "L-centres-4-origin-multi", GS: synthGS(1, 2, [2]int64{0, 0}), Spec: lat.Spec{Points: lat.Centres(4, 4), MaxK: 5, Valid: true}, IDSets: [][]int{{0, 1}, {1, 0}}, Cfgs: []snap.Config{{}}})
 	return scs
 }
 
